@@ -35,6 +35,16 @@ CLAIMED = {
    "From a state with a live tree K1: lock(K1)/unlock(K1), commits combining DereferenceTree(K1) with writes to hash and btree columns, later transactions writing the same keys, InsertTree(K2) reusing a node of K1, all stage interleavings, reopen. Oracle: the locked tree equals its snapshot at every state; every column agrees with the model applying transactions in commit-return order at every state, after drain and after reopen; after unlock the removal completes.",
    "Sequential (single-thread) part only: lock/unlock are events. The threaded variant (reader/writer/pruner/pipeline threads under loom) is not built yet. At most 3 process_commits calls per locked period (each re-queues the postponed dereference under a fresh id).",
    "DESIGN.md §3 E1, §4 C11"),
+ "C06": ("seqmc-sweep", "exploration",
+   "exhaustive one-parameter sweeps over the real Db: every boundary length (quick) / every length 0..70000 (thorough) x content class x compression configuration; all ordered pairs/triples of representative size classes as overwrite sequences",
+   "Every value is committed, driven to the tables, read back (get, get_size) bit-exact, and read again after reopen; lengths cover +-1 around all 255 size-class boundaries for every header layout, +-2 around 1..18-part chain boundaries, 2^20+-1 and 3 MiB; overwrite sequences old->new(->newer)->removed->reopen->old again on one key with a storage-release oracle (live slots = fill mark minus free list, walked in the table file, must equal those of a database that only stored the first value).",
+   "Pipeline fully driven after each commit. Compressed sizes are not steered onto boundaries (only uncompressed lengths are). Thorough tier adds all lengths, 3 compression kinds x 3 thresholds x {hash, btree, ref-counted}.",
+   "DESIGN.md §3 E1 sweep, §4 C06"),
+ "C19": ("pagemc", "exploration",
+   "exhaustive small-scope enumeration of the real page-search functions (fast SSE2 and scalar) through a hook",
+   "All index sizes 16..=44 x key classes x all pages with <= 2 (quick) / <= 3 (thorough) occupied slots from {exact match, exact match other address, match on fast-compared bits only, non-match, zero partial key} plus full pages with one special entry at each position x all 64 start positions. Oracle: returned slot >= start, non-empty, equal to the page content, agrees with the key on all compared bits, is the first such slot, no exact match before it; 'absent' only if no exact match at or after start; the scalar search must be exact.",
+   "x86_64 only (the SSE2 path exists only there). Pages with 4..63 occupied slots are covered only by the full-page family.",
+   "DESIGN.md §3 E4, §4 C19"),
 }
 
 NOT_YET = {}
@@ -73,6 +83,8 @@ def main():
             "add_only": True,
         },
         "engines": [
+            {"name": "seqmc-sweep", "path": "/verif/mc/src/props/c06.rs", "serves_properties": ["C06"], "kind_free_text": "exhaustive finite sweeps (lengths, overwrite sequences) over the real Db"},
+            {"name": "pagemc", "path": "/verif/mc/src/props/c19.rs", "serves_properties": ["C19"], "kind_free_text": "exhaustive enumeration of index pages x keys x start positions against both page-search implementations"},
             {"name": "seqmc", "path": "/verif/mc", "serves_properties": sorted([k for k, v in CLAIMED.items() if v[0] == "seqmc"]),
              "kind_free_text": "bounded exhaustive graph search over histories x pipeline-stage schedules of the real Db in stepping mode, reference models, pipeline model PM in lock-step"},
         ],
